@@ -11,10 +11,12 @@
     lock-order <A> <B> / lock-order-end <n>        -> ok | table-mismatch   (B taken while A may be held)
     sign <cacheHash> <cacheSig> <h>                -> ret <r> cache <hash> <sig>       (sequential SignBlock)
     sched <cacheHash> <cacheSig> <h0> <h1> <bits>  -> ret <r0|-> <r1|-> cache <hash> <sig>  (two unsynchronised calls, one merge)
+    lagq <ev> … / lagapi <ev> …                    -> see Driver/C19Lag.lean (writer-lag schedules on the real FileQueue / ChainDatabase)
 -/
 import Driver.Util
 import LemoModel.Signer
 import LemoModel.LockFacts
+import Driver.C19Lag
 namespace Driver.C19
 open LemoModel.Signer LemoModel.LockFacts Driver
 
@@ -76,6 +78,8 @@ def step (s : St) (w : List String) : St × String :=
       let (r0, r1, hash, sig) := outcome ch cs h0 h1 m
       (s, s!"ret {showOpt r0} {showOpt r1} cache {hash} {sig}")
     | _, _, _, _, _ => (s, "bad-op")
+  | "lagq" :: toks => (s, Driver.C19Lag.lagq toks)
+  | "lagapi" :: toks => (s, Driver.C19Lag.lagapi toks)
   | _ => (s, "bad-op")
 
 end Driver.C19
